@@ -42,7 +42,7 @@ def product_info():
 def config_info(cfg=None):
     # installation description 1, installation description 2, manufacturer information; each field holds at most 70 characters
     if cfg and cfg.get('conf'):
-        a, b, m = [list(bytes.fromhex(x))[:70] if x != '-' else [] for x in cfg['conf'].split(',')]
+        a, b, m = [list(bytes.fromhex(x))[:70] if x not in ('-', '~') else [] for x in cfg['conf'].split(',')]    # ~ = string not given (null pointer): sent as empty
         return [len(a) + 2, 1] + a + [len(b) + 2, 1] + b + [len(m) + 2, 1] + m
     return varstr('') + varstr('') + varstr('NMEA2000 library, https://github.com/ttlappalainen/NMEA2000')
 
@@ -76,6 +76,8 @@ def parse_cfg(line):
             cfg[k] = [int(x) for x in v.split(',') if x]
         elif k == 'conf':
             cfg[k] = v
+            if v == '~,~,~':
+                cfg['noconf'] = 1             # no string given at all: the node has no configuration information
         else:
             cfg[k] = int(v)
     ops = [o.split() for o in opss.split(';')]
@@ -531,6 +533,14 @@ def gen(seed, tier):
         own = [own_addr(src0, i) for i in range(ndev)]
         ops = [req(r, 50, own[0], 126998), 'P', req(r, 51, 255, 126998), 'P', req(r, 52, own[-1], 126998, ln=r.choice([3, 8])), 'P', 'T 3000', 'P']
         cases.append(line + ' conf=%s,%s,%s | ' % (cstr(la), cstr(lb), cstr(lm)) + ' ; '.join(ops))
+    # ... and strings the application does not give at all (null pointers, ~): every subset of the three; whatever is given must be reported,
+    # only a node without any string answers "not available" (seed C08-10)
+    for mask in range(8):
+        line, ndev, src0, mode = cfg_line(r, ndev=r.choice([1, 2]), q=40, lists=False)
+        own = [own_addr(src0, i) for i in range(ndev)]
+        ops = [req(r, 50, own[0], 126998), 'P', req(r, 51, 255, 126998), 'P', req(r, 52, own[-1], 126998, ln=r.choice([3, 8])), 'P', 'T 3000', 'P']
+        f = [cstr(r.choice([1, 5, 30])) if mask & (1 << j) else '~' for j in range(3)]
+        cases.append(line + ' conf=%s,%s,%s | ' % tuple(f) + ' ; '.join(ops))
     # 7. sweep of the requested PGN: every value of the low 16 bits and every value of the high 8 bits occurs (thorough tier);
     #    the quick tier samples the same sequence
     ks = range(0, 65536) if thorough else r.sample(range(0, 65536), 600)
